@@ -254,3 +254,165 @@ def legal_picture_numbers(rng, n, fields):
     if fields and start % 2:
         start = (start - 1) % (1 << 32)
     return [(start + i) % (1 << 32) for i in range(n)]
+
+
+# ---------------------------------------------------------------------------------------
+# resource guards: "declared picture sizes, transform depths, slice counts and sample depths
+# within modest bounds" (properties C02, C25, C26).  A stream that declares more is OUT OF SCOPE:
+# the guard raises OutOfScope (a BaseException, so no `except Exception` in the code under test
+# can swallow or misreport it) and the harness skips the case.
+# ---------------------------------------------------------------------------------------
+class OutOfScope(BaseException):
+    pass
+
+
+GUARD_LIMITS = dict(max_samples=1 << 16, max_depth=6, max_slices=1 << 10, max_sample_bits=40, max_dim=1 << 12)
+_guards_installed = False
+
+
+def _check_state(state, video_parameters=None):
+    g = GUARD_LIMITS
+    for k in ("luma_width", "luma_height", "color_diff_width", "color_diff_height"):
+        if state.get(k, 0) > g["max_dim"]:
+            raise OutOfScope("%s=%r" % (k, state.get(k)))
+    if state.get("luma_width", 0) * state.get("luma_height", 0) > g["max_samples"]:
+        raise OutOfScope("picture too large")
+    for k in ("luma_depth", "color_diff_depth"):
+        if state.get(k, 0) > g["max_sample_bits"]:
+            raise OutOfScope("%s=%r" % (k, state.get(k)))
+    if state.get("dwt_depth", 0) + state.get("dwt_depth_ho", 0) > g["max_depth"]:
+        raise OutOfScope("transform depth")
+    if state.get("slices_x", 0) * state.get("slices_y", 0) > g["max_slices"] or max(
+            state.get("slices_x", 0), state.get("slices_y", 0)) > g["max_slices"]:
+        raise OutOfScope("slice count")
+    if state.get("slice_prefix_bytes", 0) > 1 << 12 or state.get("slice_size_scaler", 0) > 1 << 12:
+        raise OutOfScope("slice prefix/scaler")
+    if state.get("slice_bytes_numerator", 0) > 1 << 24:
+        raise OutOfScope("slice bytes")
+    if video_parameters is not None:
+        if video_parameters.get("frame_width", 0) > g["max_dim"] or video_parameters.get("frame_height", 0) > g["max_dim"]:
+            raise OutOfScope("frame size")
+
+
+def install_size_guards():
+    """Monkeypatch (in-process, in both parsers) so that oversized declarations abort as OutOfScope
+    BEFORE any size-proportional work is done."""
+    global _guards_installed
+    if _guards_installed:
+        return
+    _guards_installed = True
+    import importlib
+    # NB: `import a.b.c as x` would pick up same-named FUNCTIONS re-exported by the packages
+    dsh = importlib.import_module("vc2_conformance.decoder.sequence_header")
+    dps = importlib.import_module("vc2_conformance.decoder.picture_syntax")
+    vc2 = importlib.import_module("vc2_conformance.bitstream.vc2")
+
+    def wrap_scp(orig):
+        def set_coding_parameters(state, video_parameters):
+            _check_state({}, video_parameters)
+            for k in ("luma_excursion", "color_diff_excursion"):
+                if video_parameters.get(k, 0) >> GUARD_LIMITS["max_sample_bits"]:
+                    raise OutOfScope(k)
+            r = orig(state, video_parameters)
+            _check_state(state, video_parameters)
+            return r
+        return set_coding_parameters
+
+    dsh.set_coding_parameters = wrap_scp(dsh.set_coding_parameters)
+    vc2.set_coding_parameters = wrap_scp(vc2.set_coding_parameters)
+
+    orig_same = dps.slices_have_same_dimensions
+
+    def slices_have_same_dimensions(state):
+        _check_state(state)
+        return orig_same(state)
+
+    dps.slices_have_same_dimensions = slices_have_same_dimensions
+
+    orig_dsp = dps.slice_parameters
+
+    def d_slice_parameters(state):
+        _check_state(state)
+        r = orig_dsp(state)
+        _check_state(state)
+        return r
+
+    dps.slice_parameters = d_slice_parameters
+
+    orig_vsp = vc2.slice_parameters
+
+    def v_slice_parameters(serdes, state):
+        _check_state(state)
+        r = orig_vsp(serdes, state)
+        _check_state(state)
+        return r
+
+    vc2.slice_parameters = v_slice_parameters
+
+
+# ---------------------------------------------------------------------------------------
+# stream corpora and mutation
+# ---------------------------------------------------------------------------------------
+def encoder_stream(rng, n_pictures=None, **overrides):
+    """(config description, bytes, pictures) of a conformant stream from the real encoder."""
+    from vc2_conformance import encoder
+    while True:
+        kw = random_small_config(rng, max_w=12, max_h=8)
+        kw.update(overrides)
+        cf = make_codec_features(**kw)
+        n = n_pictures if n_pictures is not None else rng.choice([1, 2, 3])
+        if kw["fields"] and n % 2:
+            n += 1
+        pics = [random_picture(cf, rng) for _ in range(n)]
+        try:
+            seq = encoder.make_sequence(cf, pics)
+        except encoder.UnsatisfiableCodecFeaturesError:
+            continue
+        return describe_config(kw), serialise([seq]), pics
+
+
+def mutate(data, rng):
+    """One random mutation of a byte string; returns (kind, bytes)."""
+    data = bytearray(data)
+    kind = rng.choice(["bitflip", "bitflip", "byteset", "truncate", "insert", "delete", "parse_code", "offset",
+                       "header_byte", "multi", "zeros", "ff"])
+    n = len(data)
+    if n == 0:
+        return "empty", bytes(data)
+    # positions of parse_info headers
+    pis = [i for i in range(0, max(0, n - 12)) if data[i:i + 4] == b"BBCD"]
+    if kind == "bitflip":
+        i = rng.randrange(n)
+        data[i] ^= 1 << rng.randrange(8)
+    elif kind == "byteset":
+        data[rng.randrange(n)] = rng.randrange(256)
+    elif kind == "truncate":
+        del data[rng.randrange(n):]
+    elif kind == "insert":
+        i = rng.randrange(n + 1)
+        data[i:i] = bytes(rng.randrange(256) for _ in range(rng.randint(1, 4)))
+    elif kind == "delete":
+        i = rng.randrange(n)
+        del data[i:i + rng.randint(1, 4)]
+    elif kind == "parse_code" and pis:
+        i = rng.choice(pis)
+        data[i + 4] = rng.choice([0x00, 0x10, 0x20, 0x30, 0xC8, 0xE8, 0xCC, 0xEC, rng.randrange(256)])
+    elif kind == "offset" and pis:
+        i = rng.choice(pis) + rng.choice([5, 9])
+        v = rng.choice([0, 1, 12, 13, 14, rng.randrange(1 << 16), (1 << 32) - 1])
+        data[i:i + 4] = v.to_bytes(4, "big")
+    elif kind == "header_byte" and pis:
+        i = rng.choice(pis) + 13 + rng.randrange(0, 12)
+        if i < n:
+            data[i] ^= 1 << rng.randrange(8)
+    elif kind == "multi":
+        for _ in range(rng.randint(2, 6)):
+            i = rng.randrange(n)
+            data[i] ^= 1 << rng.randrange(8)
+    elif kind == "zeros":
+        i = rng.randrange(n)
+        data[i:i + rng.randint(1, 8)] = b"\x00" * rng.randint(1, 8)
+    elif kind == "ff":
+        i = rng.randrange(n)
+        data[i:i + rng.randint(1, 8)] = b"\xff" * rng.randint(1, 8)
+    return kind, bytes(data)
